@@ -141,7 +141,13 @@ def fix_constraint_cholesky(ZTx, s_chol, d, P, P_inorder, U, tolerance):
             cholesky_funcs.
     """
     q = P * (s_chol <= tolerance)
-    alpha = np.min(d[q] / (d[q] - s_chol[q]))
+    # A parameter that has just entered the passive set has d = 0. If its sub-solution is exactly 0.0 as well the
+    # ratio below is 0 / 0 = nan: d becomes nan, nothing is removed from the passive set and the caller loops until
+    # its RuntimeError guard. Such a parameter cannot move, so its step length is 0.
+    step = d[q] - s_chol[q]
+    ratio = np.zeros(step.shape)
+    np.divide(d[q], step, out=ratio, where=step != 0.0)
+    alpha = np.min(ratio)
 
     # set d as close to s as possible while maintaining non-negativity
     d = d + alpha * (s_chol - d)
